@@ -1,6 +1,9 @@
 """C20 — line wrapping of generated code changes layout only."""
 import ast
 import itertools
+import warnings
+
+warnings.simplefilter("ignore", SyntaxWarning)
 
 ID = "C20"
 SOURCES = ["dagrt/codegen/utils.py", "dagrt/codegen/python.py", "dagrt/codegen/fortran.py"]
